@@ -58,12 +58,11 @@ func isMutexType(t types.Type) bool {
 func lockHeldAt(fn *ssa.Function, in ssa.Instruction, recv ssa.Value, mtxIdx int, needWrite bool) bool {
 	for _, b := range fn.Blocks {
 		for _, x := range b.Instrs {
-			call, ok := x.(*ssa.Call)
-			if !ok {
+			if _, ok := x.(*ssa.Call); !ok {
 				continue
 			}
-			k, acq := mutexCallKind(ir.CalleeName(call))
-			if k == "" || !acq || (needWrite && k != "w") || !isMutexOf(call.Call.Args, recv, mtxIdx) {
+			op, isOp := lockOpOf(x)
+			if !isOp || !op.Acquire || (needWrite && op.Kind != "w") || op.Owner != recv || op.Field != mtxIdx {
 				continue
 			}
 			if !ir.Precedes(x, in) {
@@ -71,12 +70,11 @@ func lockHeldAt(fn *ssa.Function, in ssa.Instruction, recv ssa.Value, mtxIdx int
 			}
 			found, _, _ := ir.FindPath(ir.PathQuery{From: ir.At(x), Target: func(y ssa.Instruction) bool { return y == in },
 				Avoid: func(y ssa.Instruction) bool {
-					c2, ok := y.(*ssa.Call)
-					if !ok {
+					if _, ok := y.(*ssa.Call); !ok {
 						return false
 					}
-					k2, acq2 := mutexCallKind(ir.CalleeName(c2))
-					return k2 != "" && !acq2 && isMutexOf(c2.Call.Args, recv, mtxIdx)
+					op2, ok := lockOpOf(y)
+					return ok && !op2.Acquire && op2.Owner == recv && op2.Field == mtxIdx
 				}})
 			if found {
 				return true
